@@ -100,6 +100,46 @@ def show_form_runs(s, show):
     return pairs, cap_ok, True
 
 
+def show_form_runs_first(s, show):
+    """form C of String_Show (benign/C15-b1): the run is measured and capped first; a non-empty run is written
+    with "%.*s" and the loop continues; otherwise *v is in ESC and backslash + LET[strchr(ESC, *v) - ESC] is written
+    through print_to("\\%c", $I(letter)).  Same text as forms A and B (same argument)."""
+    Q = r'print_to\s*\(\s*out\s*,\s*pos\s*,\s*"\\""\s*(?:,\s*self\s*)?\)'
+    pat = (r'\{\s*' + tok('struct String* s = self;') + r'\s*pos\s*=\s*' + Q + r'\s*;\s*(?:const\s+)?' + tok('char* v = s->val;')
+           + r'\s*' + tok('while (*v) { size_t run = strcspn(v,') + r'\s*(?P<esc>\w+)\s*' + tok(');')
+           + r'\s*(?:' + tok('if (run >') + r'\s*(?P<cap>\w+)\s*' + tok(') { run =') + r'\s*(?P=cap)\s*' + tok('; }') + r')?\s*'
+           + r'if\s*\(\s*run\s*(?:>\s*0|isnt\s+0|!=\s*0)\s*\)\s*\{\s*' + tok('int off = format_to(out, pos, "%.*s", (int)run, v);')
+           + r'\s*' + tok('if (off < 0) { throw(FormatError,') + r'\s*"(?:\\.|[^"\\])*"\s*' + tok('); }')
+           + r'\s*' + tok('pos += off; v += run; continue; }')
+           + r'\s*(?:const\s+)?' + tok('char* esc = strchr(') + r'\s*(?P=esc)\s*' + tok(', *v);')
+           + r'\s*' + tok('pos = print_to(out, pos, "\\\\%c", $I(') + r'\s*(?P<let>\w+)\s*' + tok('[esc -') + r'\s*(?P=esc)\s*' + tok(']));')
+           + r'\s*' + tok('v++; }') + r'\s*return\s+' + Q + r'\s*;\s*\}')
+    m = re.fullmatch(pat, show.strip(), re.S)
+    if not m:
+        return None
+    return tables_of(s, m.group('esc'), m.group('let'), m.group('cap'))
+
+
+def tables_of(s, escname, letname, cap):
+    def strconst(name):
+        mm = re.search(r'static\s+const\s+char\s+%s\s*\[\s*\]\s*=\s*"((?:\\.|[^"\\])*)"\s*;' % re.escape(name), s)
+        return c_unescape(mm.group(1)) if mm else None
+    esc, let = strconst(escname), strconst(letname)
+    cap_ok = True
+    if cap:
+        c = cap
+        if not c.isdigit():
+            mm = (re.search(r'#\s*define\s+%s\s+\(?\s*(\d+)\s*\)?' % re.escape(c), s)
+                  or re.search(r'enum\s*\{[^}]*\b%s\s*=\s*(\d+)\s*[,}]' % re.escape(c), s)
+                  or re.search(r'static\s+const\s+(?:size_t|int|unsigned)\s+%s\s*=\s*(\d+)\s*;' % re.escape(c), s))
+            c = mm.group(1) if mm else ''
+        cap_ok = c.isdigit() and int(c) >= 1
+    pairs = None
+    if esc and let and 0 not in esc and len(let) >= len(esc) and 0 not in let[:len(esc)]:
+        pairs = [(e, l) for e, l in zip(esc, let)]
+    return pairs, cap_ok, True
+
+
 def generate(repo, emit, src, func_body):
     s = src('src/String.c')
     show = func_body(s, r'static\s+int\s+String_Show\s*\([^)]*\)\s*\{')
@@ -112,7 +152,7 @@ def generate(repo, emit, src, func_body):
     if not show:
         emit('rt_show_escapes', None); emit('rt_show_default_ok', None); emit('rt_show_quotes_ok', None)
     else:
-        formb = show_form_runs(s, show)
+        formb = show_form_runs(s, show) or show_form_runs_first(s, show)
         if formb is not None:
             pairs, plain_ok, quotes_ok = formb
             emit('rt_show_escapes', table('rt_show_escapes', pairs) if pairs else None)
@@ -188,13 +228,43 @@ def generate(repo, emit, src, func_body):
         m = re.fullmatch(r'\{\s*return\s+%s\s*\(\s*\w+\s*,\s*pos\s*,\s*"([^"]*)"\s*,\s*self\s*\)\s*;\s*\}' % call, b)
         return m.group(1) if m else None
 
-    f = fmt_of('Int_Show', 'print_to')
+    # inlined forms (design.d/C15.md "Benign changes"): the same format_to / format_from call that print_to_with /
+    # scan_from_with end up making for these one-directive formats, the same error test, pos + what the sink reported
+    STR = r'\s*"(?:\\.|[^"\\])*"\s*'
+    THROW = lambda: tok('{ throw(FormatError,') + STR + tok('); }')
+
+    def inl(fn, pat):
+        b = func_body(n, r'\b%s\s*\([^)]*\)\s*\{' % fn)
+        return re.fullmatch(pat, b.strip(), re.S) if b else None
+
+    def show_inlined(fn, getter, ctype):
+        a = (r'\{\s*(?:' + ctype + r'\s+val\s*=\s*(?:' + getter + r'|c_\w+)\s*\(\s*self\s*\)\s*;\s*)?'
+             + tok('int off = format_to(output, pos,') + r'\s*"(?P<fmt>[^"]*)"\s*,\s*(?:val|(?:' + getter + r'|c_\w+)\s*\(\s*self\s*\))\s*\)\s*;\s*'
+             + tok('if (off < 0)') + r'\s*' + THROW() + r'\s*' + tok('return pos + off; }'))
+        m = inl(fn, a)
+        return m.group('fmt') if m else None
+
+    def look_inlined(fn, struct, ctype):
+        a = (r'\{\s*' + tok('struct %s*' % struct) + r'\s*(?P<p>\w+)\s*=\s*self\s*;\s*' + ctype + r'\s+val\s*=\s*0\s*;\s*'
+             + tok('int off = 0; int err = format_from(input, pos,') + r'\s*"(?P<fmt>[^"]*)"\s*' + tok(', &val, &off);')
+             + r'\s*' + tok('if (err < 1)') + r'\s*' + THROW() + r'\s*(?P=p)\s*->\s*val\s*=\s*val\s*;\s*' + tok('return pos + off; }'))
+        m = inl(fn, a)
+        return m.group('fmt') if m else None
+
+    f = fmt_of('Int_Show', 'print_to') or show_inlined('Int_Show', 'Int_C_Int', r'(?:long|int64_t)')
     emit('rt_int_show_li', boolean('rt_int_show_li', True) if f == '%li' else None)
     f = fmt_of('Int_Look', 'scan_from')
+    if f is None and look_inlined('Int_Look', 'Int', 'long') == '%li%n':
+        f = '%li'
     emit('rt_int_look_li', boolean('rt_int_look_li', True) if f == '%li' else None)
-    f = fmt_of('Float_Show', 'print_to')
+    f = fmt_of('Float_Show', 'print_to') or show_inlined('Float_Show', 'Float_C_Float', 'double')
     emit('rt_float_show_f', boolean('rt_float_show_f', True) if f == '%f' else None)
     f = fmt_of('Float_Look', 'scan_from')
+    if f is None:
+        if look_inlined('Float_Look', 'Float', 'double') == '%lf%n':
+            f = '%lf'                     # a double is stored: what scan_from_with does for a directive with `l`
+        elif look_inlined('Float_Look', 'Float', 'float') == '%f%n':
+            f = '%f'                      # a float is stored and widened: single precision (D8)
     emit('rt_float_look_long', boolean('rt_float_look_long', f == '%lf', 'source: "%s"' % f) if f in ('%f', '%lf') else None)
 
     # ---- Show.c: the numeric branches of scan_from_with
